@@ -508,7 +508,8 @@ class SoftwareSwitchBase (object):
     err = ofp_error(type=type, code=code)
     if ofp:
       err.xid = ofp.xid
-      err.data = ofp.pack()
+      # As much of the offending message as an error message can hold
+      err.data = ofp.pack()[:0xffff - 12]
     else:
       err.xid = 0
     if data is not None:
